@@ -218,6 +218,8 @@ def agg_end_tags(text):
                 stack.pop()
         elif t.startswith("<!"):
             continue
+        elif t.endswith("/>"):
+            continue  # XML empty-element tag: opens and closes by itself
         else:
             name = t[1:-1]
             nxt = text[e:toks[idx + 1][0]] if idx + 1 < len(toks) else text[e:]
@@ -253,7 +255,8 @@ def faults(text, rng, every_char, limit):
     if not toks:
         return
     ends = agg_end_tags(text)
-    names = sorted({t[1:-1] for _, _, t in toks if not t.startswith("</") and not t.startswith("<!")}) or ["ZZ"]
+    # element names for stray / wrong end tags (the NAME of an empty-element tag <B/> is B: '</B/>' would be junk, not an end tag)
+    names = sorted({t[1:-1].rstrip("/ ") for _, _, t in toks if not t.startswith("</") and not t.startswith("<!")} - {""}) or ["ZZ"]
     pick = ends if len(ends) <= limit // 4 else rng.sample(ends, limit // 4)
     for (s, e, name) in pick:
         yield text[:s] + text[e:], {"kind": "delete-end", "tag": name, "at": s}
